@@ -5,22 +5,25 @@ import Momo.Extracted
   forward to are replaced by their abstract specification (sorted list / association list), whose
   agreement with the real HashSet / TreeSet / HashMultiMap is the subject of C01, C02, C08.
 
-  Source mirrored (include/momo/stdish unless said otherwise):
-    HashSetConstIterator::operator++ / ptIsMovable (HashSet.h:315-346)         -> It, nextU
-    unordered_set::erase(first,last)   (unordered_set.h:565-577)               -> eraseRangeU
-    unordered_map::erase(first,last)   (unordered_map.h:628-643, same tests)   -> eraseRangeU
-    HashMultiMapIterator::operator++ / pvMove (HashMultiMap.h:226-297)         -> nextMM
-    HashMultiMap::pvMakeIterator(keyIter, valueIndex, move=true) (:1212-1220)  -> makeIterEnd
-    unordered_multimap::erase(first,last) (unordered_multimap.h:569-596)       -> eraseRangeMM
-    unordered_multimap::operator==     (unordered_multimap.h:629-647)          -> mmEq
-    TreeSet::pvGetLowerBound / pvGetUpperBound / pvInsert (TreeSet.h:1107-1202)-> lb, ub, treeInsert
-    set::pvIsOrdered / pvCheckHint     (set.h:600-619)                         -> isOrdered, checkHint
-    set::insert(hint, value), emplace_hint, insert(hint, node) (set.h:437-473, 523-542)            -> setInsertHint
-    map_base::pvFind (both overloads)  (map.h:693-718)                         -> mapFind
-    map_base::pvInsert, insert(hint,node) (map.h:511-521, 721-782)             -> mapInsert
-    map::pvInsertOrAssign, at          (map.h:887-901, 952-961)                -> mapInsertOrAssign, mapAt
-    unordered_map::pvInsert / pvInsertOrAssign / at (unordered_map.h:670-684, 851-973) -> umap*
-    vector::at / insert / erase        (vector.h)                              -> vecAt, vecInsert, vecErase
+  Source mirrored (include/momo/stdish unless said otherwise; line numbers of the current tree):
+    HashSetConstIterator::operator++ / ptIsMovable (HashSet.h:315, :342)        -> It, nextU
+    unordered_set::erase(first,last)   (unordered_set.h:565)                    -> eraseRangeU
+    unordered_map::erase(first,last)   (unordered_map.h:628, same tests)        -> eraseRangeU
+    HashMultiMapIterator::operator++ / pvMove (HashMultiMap.h:226, :286)        -> nextMM
+    HashMultiMap::pvMakeIterator(keyIter, valueIndex, move=true) (:1212-1220)   -> makeIterEnd
+    unordered_multimap::erase(first,last) (unordered_multimap.h:569)            -> eraseRangeMM
+    unordered_multimap::operator==     (unordered_multimap.h:627)               -> mmEq
+    unordered_set::operator== (unordered_set.h:667), unordered_map::operator== (unordered_map.h:813) -> usetEq
+    TreeSet::pvGetLowerBound / pvGetUpperBound / pvInsert (TreeSet.h:1107, :1116, :1189) -> lb, ub, treeFind, treeInsert
+    set::pvIsOrdered / pvCheckHint     (set.h:609, :616)                        -> isOrdered, checkHint
+    set::insert(hint, value) (set.h:437, :450), emplace_hint (:516, :529)       -> setInsertHint
+    set::insert(node), insert(hint, node) (set.h:457, :466)                     -> insertNode, setInsertNodeHint
+    set::equal_range / map_base::equal_range (set.h:408, map.h:454)             -> ordEqualRange
+    map_base::pvIsOrdered / pvFind (both overloads) (map.h:686, :693, :705)     -> mapFind
+    map_base::pvInsert, insert(hint,node) (map.h:721, :771, :512)               -> mapInsert, mapInsertNodeHint
+    map::pvInsertOrAssign, at          (map.h:953, :875)                        -> mapInsertOrAssign, mapAt
+    unordered_map::pvInsert / pvInsertOrAssign / at (unordered_map.h:854, :965, :668) -> umapTryEmplace, umapInsertOrAssign, umapAt
+    vector::at / insert / erase        (vector.h)                               -> vecAt, vecInsert, vecErase
   Core Lean only (linked into the driver).
 -/
 namespace Momo.StdWrap
@@ -163,6 +166,20 @@ def mmEq (a b : MM) : Bool :=
     match b.lookup e.1 with
     | none => false
     | some ws => e.2.length == ws.length && e.2.isPerm ws)
+
+/-- `unordered_set::operator==` (unordered_set.h:667, as repaired: the element found by its key must
+    also compare equal) and `unordered_map::operator==` (unordered_map.h:813: key found, mapped values
+    equal): equal sizes, every element of `left` is found in `right` by key and equals what was found.
+    An element is (key, tag): for the set the tag is the part of the element `key_eq` does not look at. -/
+def usetEq (a b : List (Nat × Nat)) : Bool :=
+  a.length == b.length &&
+  a.all (fun e => match b.find? (fun x => x.1 == e.1) with
+                  | none => false
+                  | some x => x == e)
+
+/-- the same function before the repair (lookup by `key_eq` only); witness in Props/C06.lean -/
+def usetEq_old (a b : List (Nat × Nat)) : Bool :=
+  a.length == b.length && a.all (fun e => (b.find? (fun x => x.1 == e.1)).isSome)
 
 /-! ## 3. Ordered wrappers: hints
 
